@@ -16,6 +16,10 @@ for d in sorted(glob.glob('/verif/seeded/*/')):
     elif missed:
         mm = re.search(r'(C\d\d) strengthened', hist)
         note = f"missed at first; {mm.group(1) if mm else 'check'} strengthened, now caught"
+    if 'round 4:' in hist and re.search(r'missed', hist):
+        note = f"missed at first; {m['breaks_property']} strengthened, now caught"
+    if 'machinery errors' in hist:
+        note = "four checks ended as machinery errors at first; the driver now reports escaped subject panics"
     if 'behaviour-preserving' in hist:
         note = "missed at first; C06 strengthened (caught on the tree it was written for); after fix 757ff1b the change no longer breaks the property"
     rows.append((m['id'], m['breaks_property'], ', '.join(caught) if caught else '-', note))
